@@ -22,9 +22,10 @@ class ExactLearner(BaseEstimator):
     hclass='thresholds' : x > t and x < t for every cut between consecutive distinct values, plus both constants
     Ties are broken towards the smaller hypothesis index (any minimiser is an exact best response)."""
 
-    def __init__(self, hclass="cells", tag=None):
+    def __init__(self, hclass="cells", tag=None, output="ndarray"):
         self.hclass = hclass
         self.tag = tag
+        self.output = output  # "series_like_X": a pandas-aware estimator whose predict() returns a Series indexed like X
 
     # -- hypothesis class ---------------------------------------------------------------------------
     @staticmethod
@@ -63,6 +64,14 @@ class ExactLearner(BaseEstimator):
         return self
 
     def predict(self, X):
+        out = self._predict(X)
+        if self.output == "series_like_X" and hasattr(X, "index"):
+            import pandas as pd
+
+            return pd.Series(out, index=X.index)
+        return out
+
+    def _predict(self, X):
         x = _col0(X)
         kind = self.rule_[0]
         if kind == "cells":
